@@ -1,0 +1,184 @@
+//go:build verif
+
+// Contracts for the verification framework in /verif (comment-only file; it is
+// compiled only with -tags verif and contributes no code). Syntax: CONTRACTS.md.
+
+package pool
+
+// ---- peer.go: rendezvous (HRW) ownership (C17) ----
+//
+// The verifier over-approximates bitwise operations, so the two hash mixers are
+// what it sees anyway: deterministic but otherwise unknown functions.
+//   hstr(s)        = FNV-1a of s                       (hashString)
+//   score(kh, n)   = Wang-mix(kh ^ FNV-1a(n))          (hashCombine)
+// Ownership is characterised at the level of the SET of peers: x is the owner of
+// key kh among nodes iff x is a member with a maximal score (topOf). With distinct
+// scores for distinct names that owner is unique, hence independent of the order
+// (and multiplicity) in which the peers are listed.
+
+//@ ghost func hstr(s string) mathint
+//@ ghost func score(kh mathint, node string) mathint
+
+//@ pure func member(nodes []string, x string) bool = exists a int {nodes[a]} :: 0 <= a && a < len(nodes) && nodes[a] == x
+//@ pure func topOf(nodes []string, kh mathint, x string) bool = member(nodes, x) && forall b int {nodes[b]} :: 0 <= b && b < len(nodes) ==> score(kh, nodes[b]) <= score(kh, x)
+//@ pure func distinctScores(nodes []string, kh mathint) bool = forall a int, b int {nodes[a], nodes[b]} :: 0 <= a && a < len(nodes) && 0 <= b && b < len(nodes) && nodes[a] != nodes[b] ==> score(kh, nodes[a]) != score(kh, nodes[b])
+//@ pure func somePositive(nodes []string, kh mathint) bool = exists a int {nodes[a]} :: 0 <= a && a < len(nodes) && score(kh, nodes[a]) > 0
+//@ pure func subset(A []string, B []string) bool = forall a int {A[a]} :: 0 <= a && a < len(A) ==> member(B, A[a])
+// global forms used by the lock-taking callers (the peer list is only known after the lock)
+//@ pure func injective() bool = forall kh mathint, x string, y string {score(kh, x), score(kh, y)} :: x != y ==> score(kh, x) != score(kh, y)
+//@ pure func positive() bool = forall kh mathint, x string {score(kh, x)} :: score(kh, x) > 0
+
+//@ func hashString
+//@   pure
+//@   trusted FNV-1a (hash/fnv is external): a deterministic function of the argument
+//@   ensures result == hstr(s)
+
+//@ func hashCombine
+//@   pure
+//@   trusted bitwise mixer (over-approximated by the engine): a deterministic function of the arguments
+//@   ensures result == score(keyHash, nodeName)
+
+//@ func rendezvousHash
+//@   requires distinctScores(nodes, hstr(key))
+//@   requires len(nodes) >= 2 ==> somePositive(nodes, hstr(key))
+//@   pure
+//@   modifies nothing
+//@   ensures len(nodes) == 0 ==> result == ""
+//@   ensures len(nodes) > 0 ==> topOf(nodes, hstr(key), result)
+//@   ensures len(nodes) > 0 ==> exists a int {nodes[a]} :: 0 <= a && a < len(nodes) && nodes[a] == result && forall b int {nodes[b]} :: 0 <= b && b < a ==> score(hstr(key), nodes[b]) < score(hstr(key), result)
+//@   ensures len(nodes) > 0 ==> forall y string {topOf(nodes, hstr(key), y)} :: topOf(nodes, hstr(key), y) ==> y == result
+
+//@ loop rendezvousHash#1
+//@   invariant keyHash == hstr(key) && 0 <= bestHash
+//@   invariant forall b int {nodes[b]} :: 0 <= b && b < ridx ==> score(keyHash, nodes[b]) <= bestHash
+//@   invariant (bestHash == 0 && bestNode == "") || (exists a int {nodes[a]} :: 0 <= a && a < ridx && nodes[a] == bestNode && bestHash == score(keyHash, nodes[a]) && forall b int {nodes[b]} :: 0 <= b && b < a ==> score(keyHash, nodes[b]) < bestHash)
+
+// rendezvousRanked: a permutation of nodes in non-increasing score order; hence its
+// head is the owner (topOf) and, with distinct scores, equals rendezvousHash's result.
+// The permutation is given by two mutually inverse index maps (rkSrc: position in nodes of
+// result[a]; rkDst: position in result of nodes[b]). They are the Skolem functions of the
+// call (a function of its arguments); an existential formulation ("every element is a
+// member" in both directions) sends the solver into a matching loop. Same length + the two
+// maps = "result is a permutation of nodes".
+//@ ghost func rkSrc(key string, nodes []string, a int) int
+//@ ghost func rkDst(key string, nodes []string, b int) int
+//@ func rendezvousRanked
+//@   perexit
+//@   requires distinctScores(nodes, hstr(key))
+//@   modifies nothing
+//@   ensures len(result) == len(nodes)
+//@   ensures len(nodes) <= 1 ==> result == nodes
+//@   ensures len(nodes) >= 2 ==> forall a int {result[a]} {rkSrc(key, nodes, a)} :: 0 <= a && a < len(result) ==> 0 <= rkSrc(key, nodes, a) && rkSrc(key, nodes, a) < len(nodes) && result[a] == nodes[rkSrc(key, nodes, a)] && rkDst(key, nodes, rkSrc(key, nodes, a)) == a
+//@   ensures len(nodes) >= 2 ==> forall b int {nodes[b]} {rkDst(key, nodes, b)} :: 0 <= b && b < len(nodes) ==> 0 <= rkDst(key, nodes, b) && rkDst(key, nodes, b) < len(result) && result[rkDst(key, nodes, b)] == nodes[b] && rkSrc(key, nodes, rkDst(key, nodes, b)) == b
+//@   ensures forall a int, b int {result[a], result[b]} :: 0 <= a && a < b && b < len(result) ==> score(hstr(key), result[a]) >= score(hstr(key), result[b])
+//@   ensures forall b int {result[b]} :: 0 <= b && b < len(result) ==> score(hstr(key), result[0]) >= score(hstr(key), result[b])
+//@   ensures len(nodes) > 0 ==> topOf(nodes, hstr(key), result[0])
+
+//@ loop rendezvousRanked#1
+//@   invariant keyHash == hstr(key) && len(scores) == len(nodes) && fresh(scores)
+//@   invariant forall a int {scores[a]} {nodes[a]} :: 0 <= a && a < i ==> scores[a].node == nodes[a] && scores[a].score == score(keyHash, nodes[a])
+
+// sort.Slice(scores, less) with less(i,j) = scores[i].score > scores[j].score: trusted
+// library contract, instantiated for this comparator (closures are opaque to the engine):
+// the elements are permuted (index maps rkSrc/rkDst, mutually inverse) and no later
+// element has a greater score than an earlier one (the last clause is the instance a = 0 of
+// the one before, spelled out because a literal index does not match the trigger).
+//@ callsite rendezvousRanked sort.Slice#1
+//@   modifies elems(scores)
+//@   ensures forall a int {scores[a]} {rkSrc(key, nodes, a)} :: 0 <= a && a < len(scores) ==> 0 <= rkSrc(key, nodes, a) && rkSrc(key, nodes, a) < len(scores) && scores[a] == old(scores[rkSrc(key, nodes, a)]) && rkDst(key, nodes, rkSrc(key, nodes, a)) == a
+//@   ensures forall b int {old(scores[b])} {rkDst(key, nodes, b)} :: 0 <= b && b < len(scores) ==> 0 <= rkDst(key, nodes, b) && rkDst(key, nodes, b) < len(scores) && scores[rkDst(key, nodes, b)] == old(scores[b]) && rkSrc(key, nodes, rkDst(key, nodes, b)) == b
+//@   ensures forall a int, b int {scores[a], scores[b]} :: 0 <= a && a < b && b < len(scores) ==> scores[a].score >= scores[b].score
+//@   ensures forall b int {scores[b]} :: 0 <= b && b < len(scores) ==> scores[0].score >= scores[b].score
+
+//@ loop rendezvousRanked#2
+//@   invariant len(ranked) == len(scores) && fresh(ranked) && fresh(scores) && arr(ranked) != arr(scores)
+//@   invariant keyHash == hstr(key) && len(scores) == len(nodes)
+//@   invariant forall a int {ranked[a]} {scores[a]} :: 0 <= a && a < i ==> ranked[a] == scores[a].node
+//@   invariant i > 0 ==> ranked[0] == scores[0].node && scores[0].score == score(keyHash, scores[0].node)
+//@   invariant forall b int {nodes[b]} {rkDst(key, nodes, b)} :: 0 <= b && b < len(nodes) ==> 0 <= rkDst(key, nodes, b) && rkDst(key, nodes, b) < len(scores) && scores[rkDst(key, nodes, b)].node == nodes[b] && rkSrc(key, nodes, rkDst(key, nodes, b)) == b
+//@   invariant forall a int {scores[a]} {rkSrc(key, nodes, a)} :: 0 <= a && a < len(scores) ==> 0 <= rkSrc(key, nodes, a) && rkSrc(key, nodes, a) < len(nodes) && scores[a].node == nodes[rkSrc(key, nodes, a)] && scores[a].score == score(keyHash, scores[a].node) && rkDst(key, nodes, rkSrc(key, nodes, a)) == a
+//@   invariant forall a int, b int {scores[a], scores[b]} :: 0 <= a && a < b && b < len(scores) ==> scores[a].score >= scores[b].score
+//@   invariant forall b int {scores[b]} :: 0 <= b && b < len(scores) ==> scores[0].score >= scores[b].score
+
+// ---- PeerPool: the peer list (owned by mu) and the health view (owned by healthMu) ----
+//
+// (peerNodes is meant to be strictly sorted; that invariant is NOT claimed — the ownership
+// results below are stated on the member SET and do not need it; see props_c17.go, Undecided.)
+//@ type PeerPool
+//@   owns mu: peerNodes
+//@   owns healthMu: peerHealthMap
+
+// GetOwner: the owner is the set-level maximum (topOf) of the peer list as of the lock
+// acquisition, and it is the only one. Every node holding the same SET of peers therefore
+// computes the same owner, whatever the order in which the peers were configured or added.
+//@ func (p *PeerPool) GetOwner
+//@   requires injective() && positive()
+//@   modifies nothing
+//@   ensures locked(len(p.peerNodes)) == 0 ==> result == ""
+//@   ensures locked(len(p.peerNodes)) > 0 ==> locked(topOf(p.peerNodes, hstr(subscriberID), result))
+//@   ensures locked(len(p.peerNodes)) > 0 ==> forall y string {locked(topOf(p.peerNodes, hstr(subscriberID), y))} :: locked(topOf(p.peerNodes, hstr(subscriberID), y)) ==> y == result
+//@   lemma orderIndependent: forall A []string, B []string, kh mathint, x string, y string :: subset(A, B) && subset(B, A) && distinctScores(A, kh) && topOf(A, kh, x) && topOf(B, kh, y) ==> x == y
+//@   lemma minimalDisruption: forall A []string, B []string, kh mathint, x string, gone string :: subset(B, A) && (forall a int {A[a]} :: 0 <= a && a < len(A) && A[a] != gone ==> member(B, A[a])) && topOf(A, kh, x) && x != gone ==> topOf(B, kh, x)
+//@   lemma joinDisruption: forall A []string, B []string, kh mathint, x string, y string, nw string :: subset(A, B) && (forall b int {B[b]} :: 0 <= b && b < len(B) ==> B[b] == nw || member(A, B[b])) && topOf(A, kh, x) && topOf(B, kh, y) && distinctScores(B, kh) ==> y == x || y == nw
+
+// IsLocalOwner: exactly the owner answers true (for the peer list as of the lock acquisition).
+//@ func (p *PeerPool) IsLocalOwner
+//@   requires injective() && positive()
+//@   modifies nothing
+
+// getHealthyOwner: the owner among the peers this node currently regards as usable
+// (itself, peers without a health record, peers marked healthy): the set-level maximum of
+// that subset. By lemma minimalDisruption (applied to the usable subset) marking a peer
+// unhealthy changes the result only for subscribers whose result was that peer.
+//@ pure func healthyAt(p *PeerPool, n string) bool = n == p.nodeID || n !in p.peerHealthMap || p.peerHealthMap[n].healthy
+//@ pure func anyHealthy(p *PeerPool) bool = exists a int {p.peerNodes[a]} :: 0 <= a && a < len(p.peerNodes) && healthyAt(p, p.peerNodes[a])
+//@ pure func healthyTop(p *PeerPool, kh mathint, x string) bool = member(p.peerNodes, x) && healthyAt(p, x) && forall b int {p.peerNodes[b]} :: 0 <= b && b < len(p.peerNodes) && healthyAt(p, p.peerNodes[b]) ==> score(kh, p.peerNodes[b]) <= score(kh, x)
+//@ func (p *PeerPool) getHealthyOwner
+//@   perexit
+//@   requires injective() && positive()
+//@   modifies nothing
+//@   ensures locked(anyHealthy(p)) ==> locked(healthyTop(p, hstr(subscriberID), result))
+//@   ensures locked(anyHealthy(p)) ==> forall y string :: locked(healthyTop(p, hstr(subscriberID), y)) ==> y == result
+//@   ensures !locked(anyHealthy(p)) ==> result == p.nodeID
+
+//@ loop PeerPool.getHealthyOwner#1
+//@   invariant forall a int {ranked[a]} :: 0 <= a && a < ridx ==> !healthyAt(p, ranked[a])
+
+// ---- peer list maintenance ----
+// Decided: AddPeer makes peerID a member and keeps every old member, changes the length by 0 or
+// 1 and re-establishes the lock invariant (strictly sorted); RemovePeer only shrinks the list
+// to elements that were there and touches nothing else; NewPeerPool puts the node's own id and
+// every configured peer into the list. NOT decided (see props_c17.go, Undecided): the
+// converse inclusions and strict sortedness after sort.Strings / slices.Compact / the in-place
+// shift of RemovePeer (element terms with shifted indices do not match quantifier triggers).
+
+//@ func (p *PeerPool) AddPeer
+//@   modifies p.peerNodes
+//@   ensures member(p.peerNodes, peerID)
+//@   ensures forall a int {locked(p.peerNodes[a])} :: 0 <= a && a < locked(len(p.peerNodes)) ==> member(p.peerNodes, locked(p.peerNodes[a]))
+//@   ensures locked(member(p.peerNodes, peerID)) ==> len(p.peerNodes) == locked(len(p.peerNodes))
+//@   ensures !locked(member(p.peerNodes, peerID)) ==> len(p.peerNodes) == locked(len(p.peerNodes)) + 1
+
+//@ loop PeerPool.AddPeer#1
+//@   invariant forall a int {p.peerNodes[a]} :: 0 <= a && a < ridx ==> p.peerNodes[a] != peerID
+
+//@ func (p *PeerPool) RemovePeer
+//@   modifies p.peerNodes
+//@   ensures forall b int :: 0 <= b && b < len(p.peerNodes) ==> locked(member(p.peerNodes, p.peerNodes[b]))
+//@   ensures len(p.peerNodes) == locked(len(p.peerNodes)) || len(p.peerNodes) == locked(len(p.peerNodes)) - 1
+//@   ensures !locked(member(p.peerNodes, peerID)) ==> len(p.peerNodes) == locked(len(p.peerNodes))
+
+//@ loop PeerPool.RemovePeer#1
+//@   invariant forall a int {p.peerNodes[a]} :: 0 <= a && a < i ==> p.peerNodes[a] != peerID
+
+//@ func newLocalPool
+//@   modifies nothing
+//@   ensures fresh(result)
+//@ func NewPeerPool
+//@   ensures err == nil ==> result != nil && fresh(result) && result.nodeID == cfg.NodeID
+// (with fix_3 the list additionally passes through slices.Compact: "the node's own id and every
+// configured peer are members" then needs two composed index maps and no longer discharges; it
+// is listed as undecided for the fixed code, and is confirmed by inspection_C17_NewPeerPool_duplicates.go)
+
+//@ loop NewPeerPool#2
+//@   invariant !nodeFound
